@@ -2,7 +2,7 @@
    scan_messages = Gallina model of ScanMessages (scanmessages.go); run/scan/read_loop = statement-level model
    of bufio.Scanner.Scan (Go 1.23.5) over a chunking reader; segT = reference segmentation of the whole stream
    in one unbounded buffer, with the scanner's 64 KiB token limit. *)
-Require Import Base.Bytes Model.Frame Model.Split Lib.Bufio Spec.FrameSpec Spec.StreamSpec Spec.FramedSpec
+Require Import Base.Bytes Model.Frame Model.Split Lib.Bufio Spec.FrameSpec Spec.StreamSpec Spec.Terminal Spec.FramedSpec
   Proofs.ScanThm2 Proofs.ScanThm3 Proofs.ScanThm4 Proofs.FramedStream Proofs.FrameProofs.
 Open Scope nat_scope.
 
